@@ -21,6 +21,7 @@ ENDINGS = {
     "close-body": dict(evs=[[50, 0, "c", CLOSE_BODY]]),
     "close-code": dict(evs=[[50, 0, "c", "03e8"]]),
     "close-empty": dict(evs=[[50, 0, "c", ""]]),
+    "close-longest": dict(evs=[[50, 0, "c", (b"\x03\xe8" + b"r" * 123).hex()]]),      # the longest legal close frame: 125 bytes
     "close-utf8": dict(evs=[[0, 0, "c", (b"\x0f\xa0" + "κλείσιμο".encode()).hex()]]),
     "eof": dict(evs=[[50, 0, "e", ""]]),
     "reset": dict(evs=[[50, 0, "r", ""]]),
